@@ -202,8 +202,25 @@ func intsTo(n int) []int {
 
 func (m *M) lite(inst *Inst) string {
 	ctx := vt.Ctx()
-	s := fmt.Sprintf("tip %s h=%d w=%s\n", m.label(model.Hash(inst.repo.LastHash())), inst.repo.Height(), inst.repo.AccumulatedWork().Text(16))
-	for h := 0; h <= inst.repo.Height(); h++ {
+	height := inst.repo.Height()
+	s := fmt.Sprintf("tip %s h=%d w=%s\n", m.label(model.Hash(inst.repo.LastHash())), height, inst.repo.AccumulatedWork().Text(16))
+	heights := intsTo(height + 1)
+	nodes := inst.acc.Sorted()
+	if m.f.RealDepth {
+		heights = m.sampleHeights(inst, height, true)
+		sampled := map[int]bool{}
+		for _, h := range heights {
+			sampled[h] = true
+		}
+		var sel []*model.Node
+		for _, n := range nodes {
+			if n.Seq > m.base || sampled[n.Height] {
+				sel = append(sel, n)
+			}
+		}
+		nodes = sel
+	}
+	for _, h := range heights {
 		hash, err := inst.repo.Hash(ctx, h)
 		if err != nil {
 			s += fmt.Sprintf("hash %d err %s\n", h, err)
@@ -211,7 +228,7 @@ func (m *M) lite(inst *Inst) string {
 		}
 		s += fmt.Sprintf("hash %d %s\n", h, m.label(model.Hash(*hash)))
 	}
-	for _, n := range inst.acc.Sorted() {
+	for _, n := range nodes {
 		ch, flag, err := inst.repo.CheckHeader(ctx, bitcoin.Hash32(n.Hash))
 		s += fmt.Sprintf("node %s hashheight=%d check=(%d,%v,err=%v)\n", n.Label, inst.repo.HashHeight(bitcoin.Hash32(n.Hash)), ch, flag, err != nil)
 	}
@@ -470,7 +487,11 @@ func (m *M) crashImages(inst *Inst, snap0 map[string][]byte, ops []memstore.Op, 
 				m.fail(inst, "%s: loaded Height()=%d but tip %s has height %d", where, height, tipNode.Label, tipNode.Height)
 			}
 			chain := model.Chain(tipNode)
-			for h := 0; h <= height; h++ {
+			heights := intsTo(height + 1)
+			if m.f.RealDepth {
+				heights = m.sampleHeights(inst, height, false)
+			}
+			for _, h := range heights {
 				hash, err := repo.Hash(ctx, h)
 				if err != nil {
 					m.fail(inst, "%s: Hash(%d) failed after load: %s (tip %s@%d)", where, h, err, tipNode.Label, height)
